@@ -258,6 +258,7 @@ def evaluate_rerun(prop, case):
         viols = oracles.c14_new_jobs(hist, [
             n['id'] for attrs in case['attrs2'].values()
             for n in attrs.get('new') or ()])
+        viols += oracles.c14_rerun_implications(hist)
     else:
         fn = oracles.ORACLES[prop]
         viols = fn(hist) if fn in (oracles.c01, oracles.c02, oracles.c03,
@@ -480,6 +481,9 @@ def _generic_stats(run, hist, stats):
     jump = run.knobs.get('wall_jump')
     if jump and jump[0] <= getattr(run, 't_end', 0.0) - run.knobs['base']:
         bump('fault:wall_clock_stepped_during_the_run')
+    n_guard = sum(1 for h in hist.nodes.values() if not h.is_sched and h.enters
+                  and any(op == 'guard' for op, _ in h.spec.get('script') or ()))
+    bump('fault:own_task_cancelled_by_inner_asyncio_timeout', n_guard)
     if run.knobs.get('strict_warnings'):
         bump('fault:package_warnings_turned_into_errors')
     for h in hist.nodes.values():
